@@ -16,7 +16,9 @@ import (
 	"encoding/json"
 	"fmt"
 	"net/netip"
+	"os"
 	"slices"
+	"strings"
 	"sync"
 	"testing"
 	"time"
@@ -42,14 +44,20 @@ const vc14rtFindingNilHash = "filecache-auth-enabled-without-password-loads-nil-
 
 // Pools.  Small on purpose: collisions and hits must be frequent.
 var (
-	vc14rtProfIDs = []agd.ProfileID{"p1", "P2!x", "a~b#c$d%", "zz"}
-	vc14rtDevIDs  = []agd.DeviceID{"d1", "dev-2", "abcdefgh", "x", "d5", "d6"}
+	// "p1"/"P1" and "d1"/"D1"/"d11" are near misses of each other (letter case,
+	// shared prefix).
+	vc14rtProfIDs = []agd.ProfileID{"p1", "P1", "P2!x", "a~b#c$d%", "zz"}
+	vc14rtDevIDs  = []agd.DeviceID{"d1", "D1", "d11", "dev-2", "abcdefgh", "x", "d6"}
 
 	vc14rtLinked = []netip.Addr{
 		netip.MustParseAddr("192.0.2.1"),
 		netip.MustParseAddr("192.0.2.2"),
 		netip.MustParseAddr("2001:db8::1"),
 		netip.MustParseAddr("::ffff:192.0.2.77"),
+		// The IPv4-mapped form of the first entry: a different key.
+		netip.MustParseAddr("::ffff:192.0.2.1"),
+		// Zero-valued but valid addresses (netip.Addr{} means "none").
+		netip.MustParseAddr("0.0.0.0"),
 	}
 	vc14rtDed = []netip.Addr{
 		netip.MustParseAddr("198.51.100.1"),
@@ -57,8 +65,9 @@ var (
 		netip.MustParseAddr("2001:db8:d::1"),
 		netip.MustParseAddr("2001:db8:d::2"),
 		netip.MustParseAddr("198.51.100.3"),
+		netip.MustParseAddr("::"),
 	}
-	vc14rtHumans = []agd.HumanIDLower{"", "tv", "phone", "my-device-x--10"}
+	vc14rtHumans = []agd.HumanIDLower{"", "tv", "tv-2", "phone", "my-device-x--10"}
 
 	vc14rtNets = []netip.Prefix{
 		netip.MustParsePrefix("192.0.2.0/24"),
@@ -68,7 +77,14 @@ var (
 		netip.MustParsePrefix("2001:db8::/32"),
 		netip.MustParsePrefix("2001:db8:1::/48"),
 		netip.MustParsePrefix("10.1.2.3/8"), // not masked on purpose
+		// Unaligned, adjacent and overlapping ones.
+		netip.MustParsePrefix("198.51.100.64/26"),
+		netip.MustParsePrefix("203.0.113.8/31"),
+		netip.MustParsePrefix("2001:db8:8000::/33"),
+		netip.MustParsePrefix("2001:db8:1::5/128"),
 		netip.MustParsePrefix("0.0.0.0/0"),
+		netip.MustParsePrefix("::/0"),
+		netip.MustParsePrefix("128.0.0.0/1"),
 	}
 	vc14rtProbeIPs = []netip.Addr{
 		netip.MustParseAddr("192.0.2.1"),
@@ -81,9 +97,16 @@ var (
 		netip.MustParseAddr("2001:db9::1"),
 		netip.MustParseAddr("10.9.9.9"),
 		netip.MustParseAddr("8.8.8.8"),
+		netip.MustParseAddr("198.51.100.63"),
+		netip.MustParseAddr("198.51.100.64"),
+		netip.MustParseAddr("203.0.113.9"),
+		netip.MustParseAddr("2001:db8:8000::1"),
+		netip.MustParseAddr("2001:db8:7fff::1"),
+		netip.MustParseAddr("0.0.0.0"),
 	}
-	vc14rtASNs      = []uint32{1, 2, 64500, 4294967295}
-	vc14rtProbeASNs = []uint32{0, 1, 2, 7, 64500, 4294967295}
+	vc14rtASNs = []uint32{0, 1, 2, 64500, 4294967295}
+	// -1 stands for "no location".
+	vc14rtProbeASNs = []int64{-1, 0, 1, 2, 7, 64500, 4294967295}
 
 	vc14rtDomainRules = []string{
 		"block.test",
@@ -104,11 +127,14 @@ var (
 	vc14rtCustomRules = []string{
 		"|blocked-by-custom.example", "||x.test^$dnsrewrite=1.2.3.4", "@@||allow.test^", "# comment", "",
 		"||юникод.test^", "a b\tc",
+		// Exactly the maximum rule length (filter.MaxRuleTextRuneLen).
+		"||" + strings.Repeat("a", 1024-3) + "^",
 	}
 	vc14rtServices = []string{"youtube", "9gag", "a.b-c_d", "X!"}
 	vc14rtListIDs  = []string{"adguard_dns_filter", "1", "list-2", "z~z"}
 	vc14rtZones    = []string{"UTC", "", "Europe/Brussels", "America/New_York", "Asia/Kolkata", "Australia/Lord_Howe", "Pacific/Chatham"}
-	vc14rtNames    = []string{"", "dev1", "My Phone", "Телефон Ивана", "客厅电视 📺", "a\"b\\c\nd"}
+	vc14rtNames    = []string{"", "dev1", "Dev1", "My Phone", "Телефон Ивана", "客厅电视 📺", "a\"b\\c\nd", "x",
+		strings.Repeat("я", agd.MaxDeviceNameRuneLen)}
 	vc14rtTTLs     = []time.Duration{0, time.Second, 10 * time.Second, time.Hour, 1, 1500 * time.Millisecond, -time.Second, 1<<62 + 12345}
 	vc14rtRPS      = []uint32{1, 2, 3, 5, 5, 100, 20000, 0}
 	vc14rtEsts     = []datasize.ByteSize{256 * datasize.B, 1 * datasize.KB}
@@ -218,6 +244,11 @@ type vc14rtDevSpec struct {
 type vc14rtWorld struct {
 	Profs []*vc14rtProfSpec
 	Devs  []*vc14rtDevSpec
+
+	// TwinProfile / TwinDevice name the single difference between the first
+	// two profiles / devices if they were generated as near misses.
+	TwinProfile string `json:",omitempty"`
+	TwinDevice  string `json:",omitempty"`
 }
 
 func (w *vc14rtWorld) prof(id agd.ProfileID) *vc14rtProfSpec {
@@ -445,6 +476,19 @@ func vc14rtDrawWorld(t *rapid.T, minDevs int, allowDeleted bool) (w *vc14rtWorld
 		w.Profs = append(w.Profs, p)
 	}
 
+	// Near miss: the second profile is the first one with exactly one setting
+	// changed (and its own id).
+	if nProf >= 2 && rapid.IntRange(0, 2).Draw(t, "twinProfile") == 0 {
+		tw := vc14rtCloneWorld(&vc14rtWorld{Profs: w.Profs[:1]}).Profs[0]
+		tw.ID = w.Profs[1].ID
+		if !allowDeleted {
+			tw.Deleted = false
+		}
+
+		w.TwinProfile = vc14rtMutateProf(t, tw)
+		w.Profs[1] = tw
+	}
+
 	freeLinked := slices.Clone(vc14rtLinked)
 	freeDed := slices.Clone(vc14rtDed)
 	for _, id := range vc14rtDevIDs {
@@ -485,7 +529,306 @@ func vc14rtDrawWorld(t *rapid.T, minDevs int, allowDeleted bool) (w *vc14rtWorld
 		w.Devs = append(w.Devs, d)
 	}
 
+	// Near miss: the second device has the first one's settings with exactly
+	// one changed (and its own id and keys).
+	if len(w.Devs) >= 2 && rapid.IntRange(0, 2).Draw(t, "twinDevice") == 0 {
+		a, b := w.Devs[0], w.Devs[1]
+		b.Name, b.Filtering, b.Auth, b.DoHOnly, b.Passwd, b.EmptyNonNil = a.Name, a.Filtering, a.Auth, a.DoHOnly, a.Passwd, a.EmptyNonNil
+		w.TwinDevice = vc14rtMutateDev(t, b)
+	}
+
 	return w
+}
+
+// vc14rtCloneWorld returns a deep copy of w.
+func vc14rtCloneWorld(w *vc14rtWorld) (c *vc14rtWorld) {
+	b, err := json.Marshal(w)
+	if err != nil {
+		panic(fmt.Errorf("harness: cloning world: %w", err))
+	}
+
+	c = &vc14rtWorld{}
+	if err = json.Unmarshal(b, c); err != nil {
+		panic(fmt.Errorf("harness: cloning world: %w", err))
+	}
+
+	return c
+}
+
+// vc14rtMutateProf changes exactly one setting of p and names it.
+func vc14rtMutateProf(t *rapid.T, p *vc14rtProfSpec) (what string) {
+	flags := []*bool{&p.Auto, &p.Chrome, &p.Firefox, &p.Relay, &p.Filtering, &p.IPLog, &p.QueryLog, &p.CustomEnabled,
+		&p.ParEnabled, &p.Adult, &p.SSGeneral, &p.SSYouTube, &p.ListEnabled, &p.SBEnabled, &p.SBDangerous, &p.SBNewly}
+	reverse := func(l []string) bool {
+		if len(l) < 2 || l[0] == l[len(l)-1] {
+			return false
+		}
+
+		slices.Reverse(l)
+
+		return true
+	}
+
+	switch k := rapid.IntRange(0, 11).Draw(t, "mutation"); k {
+	case 0:
+		p.TTL++
+
+		return "ttl+1ns"
+	case 1:
+		p.Mode, p.ModeV4, p.ModeV6 = map[string]string{"null": "nxdomain", "nxdomain": "refused", "refused": "null", "custom": "null"}[p.Mode], nil, nil
+
+		return "blocking mode"
+	case 2:
+		if p.Mode == "custom" && len(p.ModeV4) > 0 {
+			p.ModeV4 = append(slices.Clone(p.ModeV4[:len(p.ModeV4)-1]), netip.MustParseAddr("192.0.2.54"))
+
+			return "custom ipv4"
+		}
+	case 3:
+		if p.Access == nil {
+			p.Access = &vc14rtAccessSpec{}
+
+			return "access: empty manager -> manager without rules"
+		} else if reverse(p.Access.Rules) {
+			return "access: rule order"
+		} else if len(p.Access.BlockedNets) > 0 {
+			p.Access.AllowedNets, p.Access.BlockedNets = append(p.Access.AllowedNets, p.Access.BlockedNets[0]), p.Access.BlockedNets[1:]
+
+			return "access: one net moved from blocked to allowed"
+		}
+	case 4:
+		if p.Access != nil && len(p.Access.BlockedASN) > 0 {
+			p.Access.AllowedASN, p.Access.BlockedASN = append(p.Access.AllowedASN, p.Access.BlockedASN[0]), p.Access.BlockedASN[1:]
+
+			return "access: one asn moved from blocked to allowed"
+		}
+	case 5:
+		if p.RL == nil {
+			p.RL = &vc14rtRLSpec{RPS: 1}
+		} else {
+			p.RL.RPS++
+		}
+
+		return "rate limit +1"
+	case 6:
+		if p.Sched == nil {
+			p.Sched = &vc14rtSchedSpec{TZ: "UTC"}
+
+			return "schedule: none -> empty"
+		}
+
+		for i, d := range p.Sched.Days {
+			if d != nil && d[1] > d[0] {
+				p.Sched.Days[i] = &[2]uint16{d[0], d[1] - 1}
+
+				return "schedule: one end -1"
+			}
+		}
+
+		p.Sched.Days[6] = &[2]uint16{0, 1}
+
+		return "schedule: saturday 0-1"
+	case 7:
+		if p.Sched != nil {
+			p.Sched.TZ = map[bool]string{true: "America/New_York", false: "Europe/Brussels"}[p.Sched.TZ == "Europe/Brussels"]
+
+			return "schedule: time zone"
+		}
+	case 8:
+		if reverse(p.CustomRules) {
+			return "custom rule order"
+		}
+
+		p.CustomRules = append(p.CustomRules, "||one-more.test^")
+
+		return "one more custom rule"
+	case 9:
+		if reverse(p.ListIDs) {
+			return "rule-list order"
+		} else if reverse(p.Services) {
+			return "blocked-service order"
+		}
+	case 10:
+		p.CustomTime = p.CustomTime.Add(time.Nanosecond)
+
+		return "custom update time +1ns"
+	}
+
+	i := rapid.IntRange(0, len(flags)-1).Draw(t, "flag")
+	*flags[i] = !*flags[i]
+
+	return fmt.Sprintf("flag %d", i)
+}
+
+// vc14rtMutateDev changes exactly one non-key setting of d and names it.
+func vc14rtMutateDev(t *rapid.T, d *vc14rtDevSpec) (what string) {
+	switch rapid.IntRange(0, 4).Draw(t, "devMutation") {
+	case 0:
+		if d.Auth != "disabled" {
+			d.DoHOnly = !d.DoHOnly
+
+			return "doh-only"
+		}
+	case 1:
+		if d.Auth == "bcrypt" {
+			d.Passwd = (d.Passwd + 1) % len(vc14rtPasswds)
+
+			return "password"
+		}
+	case 2:
+		d.Auth = map[string]string{"disabled": "allow", "allow": "bcrypt", "bcrypt": "badhash", "badhash": "emptyhash", "emptyhash": "allow"}[d.Auth]
+		if d.Auth != "bcrypt" {
+			d.Passwd = 0
+		}
+
+		return "auth kind"
+	case 3:
+		if d.Name != "" && d.Name != strings.ToUpper(d.Name) && utf8.RuneCountInString(strings.ToUpper(d.Name)) <= agd.MaxDeviceNameRuneLen {
+			d.Name = strings.ToUpper(d.Name)
+
+			return "name letter case"
+		} else if utf8.RuneCountInString(d.Name) < agd.MaxDeviceNameRuneLen {
+			d.Name += "1"
+
+			return "name +1 character"
+		}
+	}
+
+	d.Filtering = !d.Filtering
+
+	return "device filtering flag"
+}
+
+// vc14rtTweakWorld returns a copy of w with exactly one thing changed (a near
+// miss of w), keeping the snapshot consistent.
+func vc14rtTweakWorld(t *rapid.T, w *vc14rtWorld) (nw *vc14rtWorld, what string) {
+	nw = vc14rtCloneWorld(w)
+	dev := func(label string) *vc14rtDevSpec { return nw.Devs[rapid.IntRange(0, len(nw.Devs)-1).Draw(t, label)] }
+	usedLinked := func(ip netip.Addr) bool {
+		return slices.ContainsFunc(nw.Devs, func(d *vc14rtDevSpec) bool { return d.Linked == ip })
+	}
+	usedDed := func(ip netip.Addr) bool {
+		return slices.ContainsFunc(nw.Devs, func(d *vc14rtDevSpec) bool { return slices.Contains(d.Ded, ip) })
+	}
+
+	switch rapid.SampledFrom([]string{"move", "swapLinked", "relink", "ded", "human", "removeDev", "profSetting", "devSetting"}).Draw(t, "tweak") {
+	case "move":
+		if len(nw.Profs) < 2 {
+			break
+		}
+
+		d := dev("moved")
+		from := nw.ownerOf(d.ID)
+		var others []*vc14rtProfSpec
+		for _, p := range nw.Profs {
+			if p != from {
+				others = append(others, p)
+			}
+		}
+
+		to := others[rapid.IntRange(0, len(others)-1).Draw(t, "movedTo")]
+		for _, o := range to.DeviceIDs {
+			if d.Human != "" && nw.dev(o).Human == d.Human {
+				d.Human = ""
+			}
+		}
+
+		from.DeviceIDs = slices.DeleteFunc(from.DeviceIDs, func(id agd.DeviceID) bool { return id == d.ID })
+		to.DeviceIDs = append(to.DeviceIDs, d.ID)
+
+		return nw, fmt.Sprintf("device %q moves from %q to %q", d.ID, from.ID, to.ID)
+	case "swapLinked":
+		if len(nw.Devs) < 2 {
+			break
+		}
+
+		a, b := dev("swapA"), dev("swapB")
+		if a == b || a.Linked == b.Linked {
+			break
+		}
+
+		a.Linked, b.Linked = b.Linked, a.Linked
+
+		return nw, fmt.Sprintf("devices %q and %q swap linked ips", a.ID, b.ID)
+	case "relink":
+		d := dev("relinked")
+		// Prefer the sibling form (IPv4 <-> IPv4-mapped) of the current
+		// address: the nearest miss.
+		cands := append([]netip.Addr{}, vc14rtLinked...)
+		if d.Linked.IsValid() {
+			sib := d.Linked.Unmap()
+			if !d.Linked.Is4In6() {
+				sib = netip.AddrFrom16(d.Linked.As16())
+			}
+
+			cands = append([]netip.Addr{sib}, cands...)
+		}
+
+		for _, ip := range cands {
+			if ip != d.Linked && !usedLinked(ip) && slices.Contains(vc14rtLinked, ip) {
+				old := d.Linked
+				d.Linked = ip
+
+				return nw, fmt.Sprintf("device %q linked ip %v -> %v", d.ID, old, ip)
+			}
+		}
+
+		if d.Linked.IsValid() {
+			d.Linked = netip.Addr{}
+
+			return nw, fmt.Sprintf("device %q loses its linked ip", d.ID)
+		}
+	case "ded":
+		d := dev("dedChanged")
+		if len(d.Ded) > 0 {
+			d.Ded = d.Ded[:len(d.Ded)-1]
+
+			return nw, fmt.Sprintf("device %q loses a dedicated ip", d.ID)
+		}
+
+		for _, ip := range vc14rtDed {
+			if !usedDed(ip) {
+				d.Ded = append(d.Ded, ip)
+
+				return nw, fmt.Sprintf("device %q gains dedicated ip %v", d.ID, ip)
+			}
+		}
+	case "human":
+		d := dev("humanChanged")
+		own := nw.ownerOf(d.ID)
+		for _, h := range vc14rtHumans[1:] {
+			free := h != d.Human
+			for _, o := range own.DeviceIDs {
+				free = free && nw.dev(o).Human != h
+			}
+
+			if free {
+				old := d.Human
+				d.Human = h
+
+				return nw, fmt.Sprintf("device %q human id %q -> %q", d.ID, old, h)
+			}
+		}
+	case "removeDev":
+		if len(nw.Devs) < 2 {
+			break
+		}
+
+		d := dev("removed")
+		own := nw.ownerOf(d.ID)
+		own.DeviceIDs = slices.DeleteFunc(own.DeviceIDs, func(id agd.DeviceID) bool { return id == d.ID })
+		nw.Devs = slices.DeleteFunc(nw.Devs, func(o *vc14rtDevSpec) bool { return o == d })
+
+		return nw, fmt.Sprintf("device %q is deleted", d.ID)
+	case "devSetting":
+		d := dev("devChanged")
+
+		return nw, fmt.Sprintf("device %q: %s", d.ID, vc14rtMutateDev(t, d))
+	}
+
+	p := nw.Profs[rapid.IntRange(0, len(nw.Profs)-1).Draw(t, "profChanged")]
+
+	return nw, fmt.Sprintf("profile %q: %s", p.ID, vc14rtMutateProf(t, p))
 }
 
 // Builders.
@@ -720,7 +1063,7 @@ type vc14rtProbe struct {
 }
 
 func vc14rtDrawProbe(t *rapid.T, est datasize.ByteSize) *vc14rtProbe {
-	pr := &vc14rtProbe{Est: est, RespUnits: rapid.IntRange(0, 3).Draw(t, "respUnits"), Bcrypt: rapid.IntRange(0, 2).Draw(t, "bcryptProbe") == 0}
+	pr := &vc14rtProbe{Est: est, RespUnits: rapid.IntRange(0, 3).Draw(t, "respUnits"), Bcrypt: rapid.IntRange(0, 3).Draw(t, "bcryptProbe") == 0}
 	for _, ts := range vc14rtProbeTS {
 		pr.Times = append(pr.Times, time.Unix(ts, 0))
 	}
@@ -837,6 +1180,48 @@ func vc14rtDiffProfile(spec *vc14rtProfSpec, got *agd.Profile, pr *vc14rtProbe) 
 	return diffs
 }
 
+// blocked is the harness's own reading of the access settings (it does not ask
+// package access): allow lists win over block lists for the client address and
+// AS number; the probed names are matched by the pooled rules as listed.
+func (a *vc14rtAccessSpec) blocked(ip netip.Addr, asn int64, name string, qt uint16) bool {
+	inNets := func(nets []netip.Prefix) bool {
+		for _, n := range nets {
+			if n.Contains(ip) {
+				return true
+			}
+		}
+
+		return false
+	}
+	inASNs := func(l []uint32) bool { return asn >= 0 && slices.Contains(l, uint32(asn)) }
+	has := func(r string) bool { return slices.Contains(a.Rules, r) }
+
+	if !(inASNs(a.AllowedASN) || inNets(a.AllowedNets)) && (inASNs(a.BlockedASN) || inNets(a.BlockedNets)) {
+		return true
+	}
+
+	switch name {
+	case "block.test.":
+		return has("block.test")
+	case "sub.ads.example.":
+		return has("||ads.example^")
+	case "ok.ads.example.":
+		return has("||ads.example^") && !has("@@||ok.ads.example^")
+	case "exact.example.":
+		return has("|exact.example|")
+	case "a.wild.example.":
+		return has("*.wild.example")
+	case "typed.example.":
+		return qt == dns.TypeAAAA && has("||typed.example^$dnstype=AAAA")
+	case "block-upper.test.":
+		return has("BLOCK-UPPER.test")
+	case "regex12.test.":
+		return has("/regex[0-9]+\\.test/")
+	default:
+		return false
+	}
+}
+
 func vc14rtDiffAccess(spec *vc14rtProfSpec, got access.Profile) (diffs []string) {
 	add := func(f string, a ...any) {
 		diffs = append(diffs, fmt.Sprintf("profile %q: access: ", spec.ID)+fmt.Sprintf(f, a...))
@@ -888,13 +1273,16 @@ func vc14rtDiffAccess(spec *vc14rtProfSpec, got access.Profile) (diffs []string)
 	for _, ip := range vc14rtProbeIPs {
 		for _, asn := range vc14rtProbeASNs {
 			var loc *geoip.Location
-			if asn != 0 {
+			if asn >= 0 {
 				loc = &geoip.Location{ASN: geoip.ASN(asn)}
 			}
 
 			ap := netip.AddrPortFrom(ip, 12345)
-			if g, w := got.IsBlocked(plain, ap, loc), ref.IsBlocked(plain, ap, loc); g != w {
+			g := got.IsBlocked(plain, ap, loc)
+			if w := ref.IsBlocked(plain, ap, loc); g != w {
 				add("IsBlocked(ip %v, asn %d) = %t, want %t", ip, asn, g, w)
+			} else if m := want.blocked(ip, asn, "free.example.", dns.TypeA); g != m {
+				add("IsBlocked(ip %v, asn %d) = %t, the settings say %t", ip, asn, g, m)
 			}
 		}
 	}
@@ -902,8 +1290,11 @@ func vc14rtDiffAccess(spec *vc14rtProfSpec, got access.Profile) (diffs []string)
 	for _, name := range vc14rtProbeNames {
 		for _, qt := range []uint16{dns.TypeA, dns.TypeAAAA} {
 			req := vc14rtMsg(name, qt)
-			if g, w := got.IsBlocked(req, neutral, nil), ref.IsBlocked(req, neutral, nil); g != w {
+			g := got.IsBlocked(req, neutral, nil)
+			if w := ref.IsBlocked(req, neutral, nil); g != w {
 				add("IsBlocked(%s %s) = %t, want %t", name, dns.TypeToString[qt], g, w)
+			} else if m := want.blocked(neutral.Addr(), -1, name, qt); g != m {
+				add("IsBlocked(%s %s) = %t, the settings say %t", name, dns.TypeToString[qt], g, m)
 			}
 		}
 	}
@@ -1159,6 +1550,22 @@ func vc14rtDiffDevice(spec *vc14rtDevSpec, got *agd.Device, pr *vc14rtProbe) (di
 	}
 
 	return diffs, false
+}
+
+// vc14rtScratchDir returns a directory for the cache files of the in-process
+// parts.  Every Store fsyncs; on a loaded machine that dominates the run time,
+// so a memory-backed file system is preferred where there is one (the files are
+// as real to the code under test; the kill-point part stays on t.TempDir()).
+func vc14rtScratchDir(t *testing.T) string {
+	if fi, err := os.Stat("/dev/shm"); err == nil && fi.IsDir() {
+		if d, derr := os.MkdirTemp("/dev/shm", "vc14rt-"); derr == nil {
+			t.Cleanup(func() { _ = os.RemoveAll(d) })
+
+			return d
+		}
+	}
+
+	return t.TempDir()
 }
 
 // vc14rtNeedZones makes the run inconclusive (not a violation) if the time-zone
